@@ -73,8 +73,8 @@ class KademliaRPC:
         return b'OK'
 
     def find_node(self, rpc_contact: 'KademliaPeer', key: bytes) -> typing.List[typing.Tuple[bytes, str, int]]:
-        if len(key) != constants.HASH_LENGTH:
-            raise ValueError("invalid contact node_id length: %i" % len(key))
+        if not isinstance(key, bytes) or len(key) != constants.HASH_LENGTH:
+            raise ValueError("invalid contact node_id: expected %i bytes" % constants.HASH_LENGTH)
 
         contacts = self.protocol.routing_table.find_close_peers(key, sender_node_id=rpc_contact.node_id)
         contact_triples = []
